@@ -120,6 +120,35 @@ def judge(ctx, case, label, obj, has, rng_range, cp_free_excluders, rng,
                               'temperature given as %s' % (label, name, fl),
                               case, {'T': T, 'range': [lo, hi],
                                      'value': repr(o['ok'])[:120]})
+    # ONE temperature array object walked across the range in place (a grid
+    # advanced with `T += dT` between calls): each call is judged on what the
+    # array holds NOW
+    if outside:
+        for name in PROPS:
+            if not all(n in has for n in NEEDS[name]):
+                continue
+            grid = np.array([mid, mid])
+            first = observe(getattr(obj, name), grid)
+            if 'exc' in first:
+                continue
+            for T_out in (outside[-1], outside[0]):
+                grid[...] = [mid, T_out]
+                if 'exc' in observe(getattr(obj, name), np.array(
+                        [mid, T_out])):
+                    o = observe(getattr(obj, name), grid)
+                    ctx.evals()
+                    if 'exc' not in o:
+                        ok = False
+                        ctx.violation(
+                            '%s.%s returned values for an array object that '
+                            'was inside the range at an earlier call and was '
+                            'moved outside in place' % (label, name), case,
+                            {'T': T_out, 'range': [lo, hi],
+                             'value': repr(o['ok'])[:120]})
+                    else:
+                        ctx.count('temperature_arrays_moved_outside_in_place')
+                grid[...] = [mid, mid]
+                observe(getattr(obj, name), grid)
     for T in inside:
         for name in PROPS:
             if not all(n in has for n in NEEDS[name]):
